@@ -3,8 +3,8 @@ import z3
 
 R = z3.RealSort()
 SQRT = z3.Function("sqrt", R, R)
-SIN = z3.Function("sin", R, R)
-COS = z3.Function("cos", R, R)
+SIN = z3.Function("m_sin", R, R)
+COS = z3.Function("m_cos", R, R)
 EXP = z3.Function("exp", R, R)
 LOG = z3.Function("log", R, R)
 ATAN2 = z3.Function("atan2", R, R, R)
